@@ -6,7 +6,7 @@
 (* formula) for every argument up to PMax.  One state per lemma so that    *)
 (* TLC's workers share the work.                                           *)
 (***************************************************************************)
-EXTENDS LogForm
+EXTENDS LogForm, Json
 VARIABLE lemma
 Init == lemma \in {"legendre", "gamma_rec", "gamma_base", "log_mul", "duplication"}
 Next == UNCHANGED lemma
@@ -15,4 +15,7 @@ Holds == CASE lemma = "legendre" -> LemmaLegendre
            [] lemma = "gamma_base" -> LemmaGammaBase
            [] lemma = "log_mul" -> LemmaLogMul
            [] lemma = "duplication" -> LemmaDuplication
+\* the lgamma table as forms, printed once so that the harness can validate its (trusted) form evaluator
+\* against math.lgamma before using it on scores
+Emit == lemma = "gamma_base" => PrintT(ToJson({[m |-> m, f |-> FJson(LGamma2(m))] : m \in 1..PMax}))
 =============================================================================
